@@ -39,6 +39,10 @@ def main():
         rc0, o0 = sh(demo_cmd, cwd=tree, env=env, timeout=600)
         ran.append(f'demo on unmodified tree: exit {rc0}')
         rc, out = sh(f'git apply {os.path.join(src, "patch.diff")}', cwd=tree)
+        if rc != 0:
+            # /repo moved on since the change was written (fix: commits): three-way apply keeps the change's own hunks
+            rc, out = sh(f'git apply --3way {os.path.join(src, "patch.diff")}', cwd=tree)
+            ran.append('patch applied with --3way (the tree moved on since the change was written)')
         assert rc == 0, 'patch does not apply: ' + out
         rc1, o1 = sh(demo_cmd, cwd=tree, env=env, timeout=600)
         ran.append(f'demo with the change: exit {rc1}')
